@@ -168,6 +168,19 @@ class Hub:
             # priority by actor kind, e.g. "P:loop,thread,job,main,observer" starves the observers (late notifications)
             rank = {k: i for i, k in enumerate(self.policy[2:].split(","))}
             en = sorted(en, key=lambda a: (rank.get(a.kind, 99), a.seq))
+        elif self.policy.startswith("Q:"):
+            # priority by simulated scheduler process ("process 2 is fast, process 1 is slow"), job processes last or
+            # first: "Q:2,1,job" / "Q:job,1,2"; observers of a process rank with it unless "obs" is listed
+            order = self.policy[2:].split(",")
+            rank = {k: i for i, k in enumerate(order)}
+
+            def key(a):
+                if a.kind == "job":
+                    return (rank.get("job", 50), a.seq)
+                if a.kind == "observer" and "obs" in rank:
+                    return (rank["obs"], a.seq)
+                return (rank.get(str(a.proc.pid), 60), a.seq)
+            en = sorted(en, key=key)
         else:
             raise KeyError(self.policy)
         return en
@@ -363,6 +376,18 @@ class PosixLockTable:
             del W.iplocks[path]
 
 
+def fine_point(path):
+    """Is a visible operation on `path` a scheduling point?  fine=True: always; fine="token": only operations on token
+    directories (token files, token.info, token.lock) - the other files of such scenarios belong to one process only."""
+    f = W.fine
+    if f is True:
+        return True
+    if f == "token":
+        p = str(path)
+        return "/tokens/" in p
+    return False
+
+
 def ip_acquire(path, blocking=True):
     path = str(path)
     if _dead() or current_proc() is None:
@@ -376,7 +401,7 @@ def ip_acquire(path, blocking=True):
     Path(path).parent.mkdir(parents=True, exist_ok=True)
     if not os.path.exists(path):
         open(path, "a").close()
-    if W.fine:
+    if fine_point(path):
         W.events.append(("fs", pid, "lock", os.path.basename(path)))
         HUB.yield_point()
     return True
@@ -390,7 +415,7 @@ def ip_release(path):
     if p is None or not p.alive:
         return
     PosixLockTable.release(path, p.pid)
-    if W.fine:
+    if fine_point(path):
         W.events.append(("fs", p.pid, "unlock", os.path.basename(path)))
         HUB.yield_point()
 
@@ -457,7 +482,7 @@ def fs_event(kind, path):
             W.markers.add(p)
     if p.endswith(".token"):
         W.events.append(("tok", proc.pid, kind, os.path.basename(os.path.dirname(p)), os.path.basename(p)[:8]))
-    if W.fine:
+    if fine_point(p):
         W.events.append(("fs", proc.pid, kind, os.path.basename(p)))
         HUB.yield_point()
 
@@ -581,7 +606,7 @@ def v_mkdir(self, *a, **k):
     _refuse_if_dead()
     existed = os.path.isdir(self)
     r = _orig["mkdir"](self, *a, **k)
-    if not existed and W.fine:
+    if not existed and fine_point(self):
         fs_event("mkdir", self)
     return r
 
